@@ -46,7 +46,15 @@
                         raises StopIteration inside the coroutine -> RuntimeError instead of a cache miss.
      "SegNoParent"      SegmentedNode.__init__ creates its <seg:seg_no> child with Node() instead of Node(self):
                         the child has no parent link (get_policy from it sees no ancestor, match() may be called
-                        on it as if it were a root).                                                         *)
+                        on it as if it were a root).
+   Outside the model (the actions are not enabled there; observed on the code, reported with X02):
+     * SegmentedNode.provide with a name that stops short of / goes past the node (match.pos < len(name)) recurses
+       until RecursionError (need() raises ValueError there); SegmentedNode.provide(b'') raises struct.error
+       (FinalBlockId = segment -1) and stores nothing.
+     * policy.Signing.get_signer is declared `async def`, put_data / express call it without await.
+     * root['/'] = node raises IndexError; an Interest / a need() for the empty name is refused by NDNApp
+       (IndexError in express_interest, modelled in Express).
+   Not modelled: RDRNode (versions are wall-clock timestamps, metadata packets) and simple_trust.SignedBy.      *)
 EXTENDS Naturals, Sequences, FiniteSets, TLC
 
 CONSTANTS Keys,            \* keys usable in __getitem__ / __setitem__ paths
